@@ -11,6 +11,8 @@
 (*   Block    the block the round ended with was inserted by the nodes that are not left behind                   *)
 (*   Deliver  a node that was behind inserted its next block                                                    *)
 (*   Probe    a block valid under one set of consensus rules only was validated by every synced node              *)
+(*   Crash    a node that was behind died inside the insertion of its next block and started again over what        *)
+(*            survived (whether the block survived as its head is read from the trace)                           *)
 (*   Reorg    the last block was orphaned: the nodes behind inserted another block at its height, its holders        *)
 (*            switched to that block (ResetTo + AddBlock, as the fork resolver does)                              *)
 (* Every line but Offer carries the OBSERVED state of every node (`sts`).  The specification carries what each    *)
@@ -41,6 +43,9 @@
 (*                                bits and the network generates geneses                                          *)
 (*   ReplicasFollow               no node refuses a block of the chain that the synced nodes validated              *)
 (*   RulesFollowVersion           a rules probe is accepted exactly by the nodes whose version has those rules      *)
+(*   RecoveredVersionByChain      a node that starts again after dying inside an insertion runs (and has stored) the  *)
+(*                                version of the chain it holds                                                  *)
+(*   RecoveredGenesisByChain      ... and reports the genesis info of that chain                                  *)
 (*   RollbackRevertsVersion       after switching away from an orphaned upgrade block a node runs (and has stored) the   *)
 (*                                version of the chain it now holds                                              *)
 (*   RollbackRevertsGenesis       ... and reports the genesis info of that chain                                  *)
@@ -345,6 +350,27 @@ TListener ==
             \cup If(~e.last \/ e.restored, "RestartRestoresBook"))
     /\ UNCHANGED <<c, nd, hd, blks, ob>>
 
+\* the node is bound to the head it is observed with after the restart (the recovery of the stores themselves is C09's)
+TCrash ==
+    /\ l <= Len(Trace) /\ Trace[l].ev = "Crash" /\ l' = l + 1
+    /\ LET e == Trace[l] IN
+       IF e.res # 1 THEN Note({"NoPanic"}) /\ UNCHANGED <<nd, hd, ob>>
+       ELSE LET o   == Rec(e.sts, e.n)
+                f   == ByChainNode(c.cfg, c.base, blks, c.h0, o.h - c.h0, Book0)
+                nd2 == [nd EXCEPT ![e.n] = RestartNode(c.cfg, c.base, [f EXCEPT !.book = nd[e.n].book, !.pbook = nd[e.n].pbook], BlockAtH(o.h))]
+                hd2 == [hd EXCEPT ![e.n] = o.h]
+                p   == nd2[e.n]
+                g   == LastNgUpTo(blks, o.h)
+            IN /\ Note(If(o.h >= c.h0 /\ o.h <= Tip, "ReplicasFollow")
+                       \cup If(/\ o.ver = p.ver /\ Eff(o.stored) = Eff(p.stored) /\ o.target = Target(c.cfg, p.ver)
+                               /\ (o.e11 <=> E11(p.ver)) /\ (o.e12 <=> E12(p.ver)), "RecoveredVersionByChain")
+                       \cup If(/\ o.cur = g /\ o.inter = (IF g = PreGen THEN NoGen ELSE g)
+                               /\ (g = PreGen => o.old = NoGen) /\ (g # PreGen => (o.old \in GenHeights(blks, o.h) /\ o.old < g)), "RecoveredGenesisByChain")
+                       \cup If(BookOf(o.book) = BookOf(ob[e.n].pbook), "RestartRestoresBook"))
+               /\ Drift(e.kept <=> (o.h = e.h), "Crash:kept")
+               /\ Install(e.sts, nd2, hd2)
+    /\ UNCHANGED <<c, blks>>
+
 \* ins = <<node, result, message, 1 = held the orphaned block and switched>>
 TReorg ==
     /\ l <= Len(Trace) /\ Trace[l].ev = "Reorg" /\ l' = l + 1
@@ -374,7 +400,7 @@ TReorg ==
           /\ Install(e.sts, nd2, hd2)
     /\ UNCHANGED c
 
-TraceNext == TReorg \/ TCase \/ TListener \/ TGenesis \/ TQuery \/ TVote \/ TPersist \/ TRestart \/ TOffer \/ TBlock \/ TDeliver \/ TProbe
+TraceNext == TCrash \/ TReorg \/ TCase \/ TListener \/ TGenesis \/ TQuery \/ TVote \/ TPersist \/ TRestart \/ TOffer \/ TBlock \/ TDeliver \/ TProbe
 TraceSpec == TraceInit /\ [][TraceNext]_tvars
 
 TraceAccepted ==
